@@ -291,8 +291,31 @@ def gen_substr_block(rng, tier, budget, opfmt, needle_ok=lambda n: True, hay_ok=
                     return
 
 
+def gen_iseq_alias(rng, tier):
+    """both operands are views of ONE buffer: same start with different lengths, overlapping,
+    adjacent, identical"""
+    buf = [(i * 37 + 11) % 256 for i in range(80)]
+    rep = [0x61] * 80
+    for b, name in ((buf, "distinct"), (rep, "repetitive")):
+        for base in (0, 3, 4096 - 80):
+            for start in (0, 1, 5):
+                for la in list(range(0, 20)) + [31, 32, 33, 64]:
+                    for lb in sorted(set([0, 1, 2, 3, 4, 5, la - 1, la, la + 1, 8, 16])):
+                        if lb < 0 or start + max(la, lb) > 80:
+                            continue
+                        for op in ("iseq", "isprefix", "issuffix"):
+                            # same start
+                            yield ("iseqalias %s %d %s %d %d %d %d" % (op, base, hx(b), start, la, start, lb), dict(family="alias-same-start"))
+                        # overlapping / adjacent
+                        for yo in (start + 1, start + la):
+                            if yo + lb <= 80:
+                                yield ("iseqalias iseq %d %s %d %d %d %d" % (base, hx(b), start, la, yo, lb), dict(family="alias-overlap"))
+                                yield ("iseqalias issuffix %d %s %d %d %d %d" % (base, hx(b), start, la, yo, lb), dict(family="alias-overlap"))
+
+
 def g_c18(rng, tier, budget):
     yield from gen_iseq(rng, tier, budget)
+    yield from gen_iseq_alias(rng, tier)
 
 
 GENERATORS.update({"C18": g_c18})
@@ -311,6 +334,9 @@ def rank_tables(rng):
         "reversed": ident[::-1],
         "random": [rng.randrange(256) for _ in range(256)],
         "coarse": [b // 64 for b in range(256)],        # non-injective
+        # rankers under which bytes late in typical needles are the rarest
+        "rare-hi": [255 - (b % 97) for b in range(256)],
+        "rare-mid": [abs(b - 0x4B) for b in range(256)],
     }
     return tabs
 
@@ -399,6 +425,10 @@ def g_c12(rng, tier, budget):
         seen = set()
         for needle in structured_needles(rng, tier):
             yield ("twnew %s %s" % (d, hx(needle)), dict(family="twnew-" + d))
+    allp = list(mm_pairs(rng, tier, 2000))
+    for needle, hay in (allp if tier == "thorough" else rng.sample(allp, min(len(allp), 40000))):
+        yield ("twfind fwd %s %s" % (hx(needle), hx(hay)), dict(family="tw-fwd-families"))
+        yield ("twfind rev %s %s" % (hx(needle), hx(hay)), dict(family="tw-rev-families"))
     # generic packed pair find on the small-lane hook (haystack >= min_haystack_len)
     yield from gen_ppfind(rng, tier, per)
 
@@ -538,6 +568,15 @@ def gen_pp_panic(rng, tier, budget):
 def g_c14(rng, tier, budget):
     yield from gen_prestate(rng, tier, budget)
     yield from gen_pp_panic(rng, tier, budget)
+    # the in-domain streams of the other properties, run in the debug-assertion / overflow-check
+    # build: any panic is a violation ("returns normally for every input in the documented domain")
+    yield from g_c19(rng, tier, budget)
+    import itertools as _it
+    for p, cap in (("C01", 20000), ("C02", 10000), ("C03", 30000), ("C04", 15000), ("C06", 5000), ("C08", 8000), ("C12", 30000), ("C18", 5000)):
+        allops = [(o, m) for (o, m) in GENERATORS[p](rng, "quick", None) if m.get("domain", "in") == "in"]
+        k = cap if tier == "quick" else cap * 8
+        for o, m in (allops if len(allops) <= k else rng.sample(allops, k)):
+            yield o, m
 
 
 GENERATORS.update({"C14": g_c14})
@@ -863,6 +902,62 @@ def mm_pairs(rng, tier, budget_pairs):
                 yield needle, hay
                 hay2 = [needle[0]] * lead + needle[:-1] + [0x2E] + needle + [0x2E] * tail
                 yield needle, hay2
+    yield from mm_pairs_targeted(rng, tier)
+
+
+def mm_pairs_targeted(rng, tier):
+    """small families aimed at specific loop interactions; always run in full"""
+    # every short needle over {a,b} against pseudo-random haystacks over {a,b,#}: '#' is a byte
+    # outside the needle's byte set, so byte-set skips interleave with period shifts
+    for nlen in range(2, 9 if tier == "quick" else 11):
+        for bits in range(1 << nlen):
+            needle = [0x61 if (bits >> i) & 1 else 0x62 for i in range(nlen)]
+            for _ in range(24 if tier == "quick" else 120):
+                hlen = rng.choice([16, 17, 19, 23, 24, 31, 64, 70])
+                yield needle, [rng.choice([0x23, 0x61, 0x61, 0x62, 0x62]) for _ in range(hlen)]
+    for needle in ([0x61, 0x62, 0x63, 0x61, 0x62, 0x63], [0x61, 0x62, 0x63, 0x61, 0x62], [0x61, 0x61, 0x62, 0x61, 0x61],
+                   [0x61, 0x62, 0x61, 0x62], [0x62, 0x61, 0x62], [0x61, 0x62, 0x61], [0x61, 0x62, 0x63, 0x64, 0x61, 0x62, 0x63, 0x64, 0x61]):
+        alpha = sorted(set(needle)) + [0x23]
+        for _ in range(400 if tier == "quick" else 4000):
+            hlen = rng.choice([16, 17, 20, 23, 31, 40, 64, 66])
+            yield needle, [rng.choice(alpha) for _ in range(hlen)]
+    # the same three-step shape with longer periodic needles u^k v: a near-occurrence whose first
+    # `cut` bytes are wrong, a run of a foreign byte, then a suffix of the needle
+    for w in ([0x61, 0x62, 0x63, 0x64, 0x65], [0x61, 0x62], [0x61, 0x61, 0x62]):
+        needle = [w[i % len(w)] for i in range(3 * len(w) + 2)]
+        for cut in range(1, len(needle), 2 if tier == "quick" else 1):
+            for s_ in range(1, len(needle), 3 if tier == "quick" else 1):
+                for gap in (1, len(needle), 40):
+                    yield needle, [w[-1]] * cut + needle[cut:] + [0x7A] * gap + needle[s_:] + [0x7A, 0x7A]
+                    yield needle, needle[s_:] + [0x7A] * gap + needle[:len(needle) - cut] + [w[0]] * cut + [0x7A] * 3
+    # rare-byte position sweep: a needle of common bytes with ONE rare byte at every offset, in
+    # haystacks only a few bytes longer than the needle (so that vector prefilters take their
+    # short-haystack path), with and without a stray copy of the rare byte before the match
+    filler = list(b"the rate of interest on the settlement note is set at one")
+    for nlen in ((8, 33, 40, 56) if tier == "quick" else (2, 8, 16, 31, 32, 33, 34, 40, 48, 56)):
+        for rare_at in range(0, nlen, 1 if tier == "thorough" or nlen > 32 else 3):
+            needle = filler[:nlen]
+            needle[rare_at] = 0x51
+            for before in (0, 3, 15, 40):
+                for after in (0, 5, 14, 64):
+                    strays = sorted(set([before] + [st for st in (0, before // 2, before - 1) if 0 <= st < before]))
+                    for stray in strays:
+                        hay = [0x20] * before
+                        if stray < before:
+                            hay[stray] = 0x51
+                        yield needle, hay + needle + [0x20] * after
+    # long needles with a LONG period and a short border (period > len/2): u v u[:b]
+    for (plen, blen) in ((28, 12), (20, 13), (30, 5), (40, 9)):
+        u = [0x30 + (i * 7) % 43 for i in range(plen)]
+        needle = u + u[:blen]
+        L = len(needle)
+        for c1 in (1, 2):
+            for s_ in (1, blen, L - plen, blen + 1, plen // 2):
+                for gap in (0, 6, 12):
+                    h = [0x2E] * 6 + [0x23] * c1 + needle[c1:] + [0x2E] * gap + needle[s_:] + [0x2E] * 64
+                    yield needle, h
+                    yield needle, h + needle + [0x2E] * 3
+                    yield needle, needle[s_:] + [0x2E] * gap + needle[:L - c1] + [0x23] * c1 + [0x2E] * 20
     # periodic long needles (Two-Way small-period branch WITH the prefilter): haystacks built from
     # near-matches of the needle: copies whose first c bytes are damaged or dropped (right part
     # matches, left part fails), separated by short gaps, optionally followed by a real match
@@ -902,8 +997,17 @@ def gen_find(rng, tier, budget, cfgs=None, pfs=("auto", "none"), rankers=None, s
     cfgs = cfgs or MM_CFGS_QUICK
     tabs = rank_tables(rng)
     rankers = rankers or ["default"]
+    pairs = list(mm_pairs(rng, tier, None if tier == "thorough" else 4000))
+    if budget:
+        targeted = list(mm_pairs_targeted(rng, tier))
+        nt = len(targeted)
+        bulk = pairs[:len(pairs) - nt] if nt < len(pairs) else pairs
+        # the targeted families are kept whole (thinned only when they alone exceed 3x the budget)
+        if nt > 3 * budget:
+            targeted = rng.sample(targeted, 3 * budget)
+        pairs = rng.sample(bulk, min(len(bulk), budget)) + targeted
     n = 0
-    for needle, hay in mm_pairs(rng, tier, None if tier == "thorough" else 4000):
+    for needle, hay in pairs:
         hb = end_at_guard(len(hay)) if n % 2 else rng.randrange(64)
         for (variant, cfg) in cfgs:
             for pf in pfs:
@@ -913,8 +1017,6 @@ def gen_find(rng, tier, budget, cfgs=None, pfs=("auto", "none"), rankers=None, s
                         yield ("find %s %s %s %d %d %s %d %s" % (cfg, pf, t, s1, s2, hx(needle), hb, hx(hay)),
                                dict(cfg=variant, family="find-%s-%s" % (cfg, pf), untraced_widths=MM_UNTRACED[cfg]))
         n += 1
-        if budget and n >= budget:
-            return
 
 
 def g_c03(rng, tier, budget):
@@ -956,7 +1058,8 @@ def iter_cases(rng, tier):
     yield [0x61], []
     needle = [0x78, 0x79] + [0x61] * 38
     yield needle, [0x78, 0x79, 0x62] * 100 + needle + [0x78, 0x79, 0x62] * 30 + needle
-    for needle, hay in mm_pairs(rng, "quick", 300):
+    allp = list(mm_pairs(rng, "quick", 300))
+    for needle, hay in rng.sample(allp, min(len(allp), 700 if tier == "quick" else 5000)):
         yield needle, hay
 
 
@@ -970,6 +1073,14 @@ def g_c08(rng, tier, budget):
                        dict(cfg=variant, family="finditer"))
             yield ("rfinditer %s %s %d %s %s" % (cfg, hx(needle), rng.randrange(64), hx(hay), "n" * min(expected, 260) + "nn"),
                    dict(cfg=variant, family="rfinditer"))
+            # clone / into_owned at EVERY point of the iteration, including after exhaustion
+            if expected <= 14 and cfg == "avx2":
+                for k in range(0, expected + 1):
+                    for conv in ("o", "k", "oo", "ko"):
+                        yield ("finditer %s auto default %s %d %s %s" % (cfg, hx(needle), 9, hx(hay), "n" * k + conv + "snn"),
+                               dict(cfg=variant, family="finditer-convert-at"))
+                        yield ("rfinditer %s %s %d %s %s" % (cfg, hx(needle), 9, hx(hay), "n" * k + conv + "nn"),
+                               dict(cfg=variant, family="rfinditer-convert-at"))
             # clones / into_owned at random points
             ops = "".join(rng.choice("nnsko") for _ in range(min(2 * expected, 80)))
             yield ("finditer %s auto default %s %d %s %s" % (cfg, hx(needle), 7, hx(hay), ops or "-"),
@@ -980,7 +1091,7 @@ def g_c08(rng, tier, budget):
 
 
 def g_c10(rng, tier, budget):
-    rk = ["default", "const0", "const255", "identity", "reversed", "random", "coarse"]
+    rk = ["default", "const0", "const255", "identity", "reversed", "random", "coarse", "rare-hi", "rare-mid"]
     yield from gen_find(rng, tier, 700 if tier == "quick" else 4000, cfgs=MM_CFGS_QUICK[:3] if tier == "quick" else MM_CFGS_QUICK,
                         rankers=rk, states=None)
     # every PrefilterState value class on the prefilter-driven families
@@ -991,6 +1102,10 @@ def g_c10(rng, tier, budget):
 
 def g_c16(rng, tier, budget):
     rngl = rng
+    # clone / into_owned of partially consumed iterators at every point (shared with C08)
+    for op, meta in g_c08(rng, tier, budget):
+        if "convert-at" in meta.get("family", "") or "-clone" in meta.get("family", ""):
+            yield op, meta
     for _ in range(400 if tier == "quick" else 4000):
         needle = rngl.choice(structured_needles(rngl, "quick"))
         L = len(needle)
@@ -1005,8 +1120,17 @@ def g_c16(rng, tier, budget):
         # haystack orders that would exhaust the prefilter first
         if L >= 34 and rngl.random() < 0.5:
             ops.insert(0, "f:" + hx(([needle[0], needle[1], 0x62] * 300)))
+        # complete iterator traversals from every ownership state
+        ops2 = []
+        for o in ops:
+            ops2.append(o)
+            if o in ("o", "k", "r") or rngl.random() < 0.3:
+                hay = rngl.choice(haystacks_for(rngl, needle, "quick", sizes=[L, 2 * L + 3, 64]))
+                ops2.append("i:" + hx(hay))
         for (variant, cfg) in MM_CFGS_QUICK[:3] if tier == "quick" else MM_CFGS_QUICK:
             yield ("finderops %s auto %s %s" % (cfg, hx(needle), ",".join(ops)), dict(cfg=variant, family="finderops"))
+            yield ("finderops %s auto %s %s" % (cfg, hx(needle), ",".join(ops2)), dict(cfg=variant, family="finderops-iter"))
+            yield ("finderrevops %s %s %s" % (cfg, hx(needle), ",".join(ops2)), dict(cfg=variant, family="finderrevops"))
 
 
 def g_c17(rng, tier, budget):
